@@ -1,13 +1,383 @@
-/- C09 — first layer; see DESIGN.md §5 -/
-import UBidi.Model.Reorder
-import UBidi.Spec.UAX9
-import UBidi.Spec.Reorder
-namespace UBidi.Props.C09
-open UBidi
+/-
+  C09 — the UTF-16 API agrees with the UTF-8 API on the same text.
 
-/-- the analysis of the empty text is empty and does not fail -/
-theorem empty_text (ds : DataSource) (d : Option Nat) :
-    (bidiInfo ds (Text.ofScalars []) d).levels = [] ∧ (bidiInfo ds (Text.ofScalars []) d).err = none := by
-  constructor <;> rfl
+  In the Model both APIs are the same generic functions applied to two `Text`s.  For a sequence `u` of
+  16-bit code units
+
+  * `t16 u = Utf16.toText u`                                  — the `&[u16]` text,
+  * `t8 u  = Text.ofScalars ((Spec.lossy u).map (·.1))`       — the `&str` with the same characters,
+    every unpaired surrogate read as U+FFFD.
+
+  Theorems (all for every `u` with 16-bit units, every data source satisfying the FSI-width proviso
+  `C02.FSIWidth` on both texts — derived for the built-in tables in the `_hardcoded` versions —, every
+  default level `d`):
+
+  * `C09_same_chars`, `C09_raw_classes`, `C09_base_direction`      — same characters, same answers of
+    `get_base_direction(_full)`;
+  * `C09_paragraphs`             — same number of paragraphs, same levels, same ranges of character indices;
+  * `C09_classes`                — same reported classes, character for character (`InitialInfo`, `BidiInfo`);
+  * `C09_single_paragraph_api`   — the same for `ParagraphBidiInfo` (level, flags, classes);
+  * `C09_levels_single_of_expand`, `C09_levels_of_expand`, `C09_levels_uniform_of_expand` — same levels,
+    character for character (at the first unit of every character, and every unit carries that level), for
+    `ParagraphBidiInfo` and `BidiInfo`, *relative to* the `Expand` lemma of `compute_bidi_info_for_para`
+    (explicit hypothesis `PbiExpand` — the instance actually used, decidable — or the general
+    `ParaLevelsExpand`: `C09_levels_of_paraLevelsExpand`, `C09_levels_hardcoded_of_expand`; the lemma itself
+    is proved separately in UBidi/Lemmas/Expand*.lean).
+
+  Method: everything `compute_initial_info` reports is, per character, a function of the list of raw
+  classes (C02's per-character machine, C16's `paragraphsOf`); `BidiInfo` is `ParagraphBidiInfo` paragraph
+  by paragraph (C10); `ParagraphBidiInfo` of a text is the expansion of `ParagraphBidiInfo` of
+  `Expand.unitize` of the text, and `unitize` depends on the scalar values only (`unitize_congr`).
+  The generic statements (two arbitrary well-formed texts with the same characters) are in
+  UBidi/Lemmas/C09*.lean.
+-/
+import UBidi.Lemmas.C09Multi
+import UBidi.Lemmas.C09Uniform
+import UBidi.Lemmas.C09Hardcoded
+import UBidi.Lemmas.C09Tests2
+import UBidi.Lemmas.C09Tests3
+namespace UBidi.Props.C09
+open UBidi UBidi.BidiClass
+open UBidi.Props.C16 (paragraphsOf)
+
+/-- the `&[u16]` text -/
+abbrev t16 (u : List Nat) : Text := Utf16.toText u
+/-- the `&str` with the same characters, each unpaired surrogate read as U+FFFD -/
+abbrev t8 (u : List Nat) : Text := Text.ofScalars ((Spec.lossy u).map (·.1))
+
+theorem t16_WF (u : List Nat) (h16 : ∀ x ∈ u, x < 65536) : (t16 u).WF := C18.C18_wf u h16
+theorem t8_WF (u : List Nat) : (t8 u).WF := Lemmas.C10.ofScalars_WF _
+
+/-! ### the notions used in the statements (defined in UBidi/Lemmas/C09*.lean), by their equations -/
+
+theorem SameChars_def (t t' : Text) : SameChars t t' ↔ t.segs.map (·.cp) = t'.segs.map (·.cp) := Iff.rfl
+
+/-- `charIndexOf t off`: the number of characters of `t` that start before code-unit offset `off` -/
+theorem charIndexOf_def (t : Text) (off : Nat) :
+    charIndexOf t off = (t.segs.filter (fun s => s.start < off)).length := rfl
+
+/-- … so the offset at which character number `k` starts has index `k` -/
+theorem charIndexOf_start (t : Text) (hwf : t.WF) (k : Nat) (hk : k < t.segs.length) :
+    charIndexOf t (t.segs[k]).start = k := by
+  have hsplit : t.segs = t.segs.take k ++ t.segs.drop k := (List.take_append_drop k t.segs).symm
+  have ht := hwf.tiles
+  rw [hsplit] at ht
+  obtain ⟨b, h1, h2⟩ := (Lemmas.C02.segsFrom_append _ _ _ _).1 ht
+  have hd : t.segs.drop k = t.segs[k] :: t.segs.drop (k + 1) := List.drop_eq_getElem_cons hk
+  have hb : (t.segs[k]).start = b := by rw [hd] at h2; exact h2.1
+  rw [hb, charIndexOf_split t _ _ b hsplit h1 h2, List.length_take]
+  omega
+
+/-- … and the end of the text has index "number of characters" -/
+theorem charIndexOf_len (t : Text) (hwf : t.WF) : charIndexOf t t.len = t.segs.length :=
+  charIndexOf_split t t.segs [] t.len (by simp) hwf.tiles (by simp [SegsFrom])
+
+theorem charParas_nil (d : Option Nat) (k : Nat) : charParas d k [] = [] := rfl
+theorem charParas_cons (d : Option Nat) (k : Nat) (p : List BidiClass) (ps : List (List BidiClass)) :
+    charParas d k (p :: ps) = (k, k + p.length, Spec.paraLevel d p) :: charParas d (k + p.length) ps := rfl
+
+theorem PbiExpand_def (ds : DataSource) (t : Text) (d : Option Nat) :
+    PbiExpand ds t d ↔
+      let o := computeInitialInfo ds t d false
+      (paraLevels ds o.lastLevel o.lastPureLtr o.lastHasIso t o.classes).1 =
+        Expand.expand t (paraLevels ds o.lastLevel o.lastPureLtr o.lastHasIso (Expand.unitize t)
+          (Expand.contract t o.classes .ON)).1 :=
+  Iff.rfl
+
+theorem ParaLevelsExpand_def (ds : DataSource) (t : Text) :
+    ParaLevelsExpand ds t ↔
+      ∀ pl pure hasIso (ocs : List BidiClass), ocs.length = t.len → Expand.UniformOn t ocs →
+        (paraLevels ds pl pure hasIso t ocs).1 =
+          Expand.expand t (paraLevels ds pl pure hasIso (Expand.unitize t) (Expand.contract t ocs .ON)).1 :=
+  Iff.rfl
+
+/-! ### characters, raw classes, base direction -/
+
+/-- the two texts have the same scalar values, character for character -/
+theorem C09_same_chars (u : List Nat) :
+    (t16 u).segs.map (·.cp) = (t8 u).segs.map (·.cp) ∧ (t16 u).segs.length = (t8 u).segs.length :=
+  ⟨sameChars_utf16_utf8 u, (sameChars_utf16_utf8 u).length⟩
+
+/-- … namely the lossy decoding of the code units -/
+theorem C09_chars_lossy (u : List Nat) :
+    (t16 u).segs.map (·.cp) = (Spec.lossy u).map (·.1) ∧ (t8 u).segs.map (·.cp) = (Spec.lossy u).map (·.1) :=
+  ⟨utf16_cps u, ofScalars_cps _⟩
+
+/-- same class from the data source, character for character -/
+theorem C09_raw_classes (ds : DataSource) (u : List Nat) : C02.raw ds (t16 u) = C02.raw ds (t8 u) :=
+  (sameChars_utf16_utf8 u).raw ds
+
+theorem C09_raw_classes' (ds : DataSource) (u : List Nat) : C16.rawClasses ds (t16 u) = C16.rawClasses ds (t8 u) :=
+  C09_raw_classes ds u
+
+/-- base direction (`get_base_direction`, `get_base_direction_full`): identical answers -/
+theorem C09_base_direction (ds : DataSource) (u : List Nat) (full : Bool) :
+    baseDirection ds (t16 u) full = baseDirection ds (t8 u) full := by
+  unfold baseDirection
+  rw [(C09_same_chars u).1]
+
+/-- `Expand.unitize` depends on the scalar values only -/
+theorem C09_unitize (u : List Nat) : Expand.unitize (t16 u) = Expand.unitize (t8 u) :=
+  unitize_congr (C09_same_chars u).1
+
+/-! ### paragraphs -/
+
+/-- generic form: for every well-formed text the reported paragraphs, as (index of the first character,
+    index one past the last character, level), are a function of the raw classes: the P1 paragraphs
+    (`paragraphsOf`) numbered consecutively, with the level of P2/P3 (or the forced level) -/
+theorem C09_paragraphs_generic (ds : DataSource) (t : Text) (d : Option Nat) (hwf : t.WF) :
+    (computeInitialInfo ds t d true).paras.map (fun p => (charIndexOf t p.start, charIndexOf t p.stop, p.level))
+      = charParas d 0 (paragraphsOf (C02.raw ds t)) :=
+  paras_char_view ds t d hwf
+
+/-- paragraphs: same number, same levels, and the k-th paragraph of either text consists of the same
+    range of character indices -/
+theorem C09_paragraphs (ds : DataSource) (u : List Nat) (h16 : ∀ x ∈ u, x < 65536) (d : Option Nat) :
+    let p16 := (computeInitialInfo ds (t16 u) d true).paras
+    let p8 := (computeInitialInfo ds (t8 u) d true).paras
+    p16.map (·.level) = p8.map (·.level) ∧ p16.length = p8.length ∧
+    p16.map (fun p => (charIndexOf (t16 u) p.start, charIndexOf (t16 u) p.stop))
+      = p8.map (fun p => (charIndexOf (t8 u) p.start, charIndexOf (t8 u) p.stop)) := by
+  intro p16 p8
+  have h1 := paras_char_view ds (t16 u) d (t16_WF u h16)
+  have h2 := paras_char_view ds (t8 u) d (t8_WF u)
+  rw [C09_raw_classes ds u, ← h2] at h1
+  refine ⟨?_, ?_, ?_⟩
+  · have := congrArg (List.map (fun x : Nat × Nat × Nat => x.2.2)) h1
+    simpa [List.map_map, Function.comp_def] using this
+  · have := congrArg List.length h1
+    simpa using this
+  · have := congrArg (List.map (fun x : Nat × Nat × Nat => (x.1, x.2.1))) h1
+    simpa [List.map_map, Function.comp_def] using this
+
+/-! ### reported classes -/
+
+/-- generic form: the classes reported by the splitting scan at the first unit of every character are a
+    function of the raw classes (X5c, by C02's per-character machine, on every P1 paragraph) -/
+theorem C09_classes_generic (ds : DataSource) (t : Text) (d : Option Nat) (hwf : t.WF) (hfsi : C02.FSIWidth ds t) :
+    t.segs.map (fun s => (computeInitialInfo ds t d true).classes.getD s.start .ON)
+      = ((paragraphsOf (C02.raw ds t)).map (fun p => (Lemmas.C02.cRun d p).cls)).flatten :=
+  multi_classes_chars ds t d hwf hfsi
+
+/-- reported classes (`InitialInfo`, `BidiInfo`: `original_classes`), character for character -/
+theorem C09_classes (ds : DataSource) (u : List Nat) (h16 : ∀ x ∈ u, x < 65536) (d : Option Nat)
+    (hfsi16 : C02.FSIWidth ds (t16 u)) (hfsi8 : C02.FSIWidth ds (t8 u)) :
+    (t16 u).segs.map (fun s => (computeInitialInfo ds (t16 u) d true).classes.getD s.start .ON)
+      = (t8 u).segs.map (fun s => (computeInitialInfo ds (t8 u) d true).classes.getD s.start .ON) := by
+  rw [C09_classes_generic ds _ d (t16_WF u h16) hfsi16, C09_classes_generic ds _ d (t8_WF u) hfsi8,
+    C09_raw_classes ds u]
+
+/-- … and within either text all units of a character carry that class -/
+theorem C09_classes_uniform (ds : DataSource) (u : List Nat) (h16 : ∀ x ∈ u, x < 65536) (d : Option Nat)
+    (hfsi16 : C02.FSIWidth ds (t16 u)) (hfsi8 : C02.FSIWidth ds (t8 u)) (split : Bool) :
+    Expand.UniformOn (t16 u) (computeInitialInfo ds (t16 u) d split).classes ∧
+    Expand.UniformOn (t8 u) (computeInitialInfo ds (t8 u) d split).classes :=
+  ⟨classes_uniformOn ds _ d (t16_WF u h16) hfsi16 split, classes_uniformOn ds _ d (t8_WF u) hfsi8 split⟩
+
+theorem C09_classes_hardcoded (u : List Nat) (h16 : ∀ x ∈ u, x < 65536) (d : Option Nat) :
+    (t16 u).segs.map (fun s => (computeInitialInfo hardcoded (t16 u) d true).classes.getD s.start .ON)
+      = (t8 u).segs.map (fun s => (computeInitialInfo hardcoded (t8 u) d true).classes.getD s.start .ON) :=
+  C09_classes hardcoded u h16 d (hardcoded_FSIWidth _ (t16_WF u h16)) (hardcoded_FSIWidth _ (t8_WF u))
+
+/-! ### the single-paragraph API -/
+
+/-- `ParagraphBidiInfo` (the non-splitting scan): same paragraph level, same `pure_ltr` / `has_isolate`
+    flags, same reported classes character for character.  (No hypothesis on paragraph separators is
+    needed: whatever the non-splitting scan does with them, it does on both texts.) -/
+theorem C09_single_paragraph_api (ds : DataSource) (u : List Nat) (h16 : ∀ x ∈ u, x < 65536) (d : Option Nat)
+    (hfsi16 : C02.FSIWidth ds (t16 u)) (hfsi8 : C02.FSIWidth ds (t8 u)) :
+    let o16 := computeInitialInfo ds (t16 u) d false
+    let o8 := computeInitialInfo ds (t8 u) d false
+    o16.lastLevel = o8.lastLevel ∧ o16.lastPureLtr = o8.lastPureLtr ∧ o16.lastHasIso = o8.lastHasIso ∧
+    (t16 u).segs.map (fun s => o16.classes.getD s.start .ON) = (t8 u).segs.map (fun s => o8.classes.getD s.start .ON) := by
+  intro o16 o8
+  have hf1 := last_flags ds (t16 u) d false
+  have hf2 := last_flags ds (t8 u) d false
+  rw [C09_raw_classes ds u, ← hf2] at hf1
+  refine ⟨?_, congrArg Prod.fst hf1, congrArg Prod.snd hf1, ?_⟩
+  · show (computeInitialInfo ds (t16 u) d false).lastLevel = (computeInitialInfo ds (t8 u) d false).lastLevel
+    rw [single_level ds _ d (t16_WF u h16), single_level ds _ d (t8_WF u), C09_raw_classes ds u]
+  · have h1 := single_contract ds (t16 u) d (t16_WF u h16) hfsi16
+    have h2 := single_contract ds (t8 u) d (t8_WF u) hfsi8
+    rw [C09_raw_classes ds u, ← h2] at h1
+    exact h1
+
+/-- in the words of C02 (`C02_single`): when no character but possibly the last has class B, both are
+    the Spec's P2/P3 level and the Spec's X5c resolution of the common raw classes -/
+theorem C09_single_paragraph_spec (ds : DataSource) (u : List Nat) (h16 : ∀ x ∈ u, x < 65536) (d : Option Nat)
+    (hfsi16 : C02.FSIWidth ds (t16 u)) (hfsi8 : C02.FSIWidth ds (t8 u))
+    (hB : ∀ c ∈ (C02.raw ds (t8 u)).dropLast, c ≠ .B) :
+    (computeInitialInfo ds (t16 u) d false).lastLevel = Spec.paraLevel d (C02.raw ds (t8 u)) ∧
+    (computeInitialInfo ds (t8 u) d false).lastLevel = Spec.paraLevel d (C02.raw ds (t8 u)) ∧
+    (t16 u).segs.map (fun s => (computeInitialInfo ds (t16 u) d false).classes.getD s.start .ON)
+      = Spec.resolveFSI (C02.raw ds (t8 u)) ∧
+    (t8 u).segs.map (fun s => (computeInitialInfo ds (t8 u) d false).classes.getD s.start .ON)
+      = Spec.resolveFSI (C02.raw ds (t8 u)) := by
+  have hB16 : ∀ c ∈ (C02.raw ds (t16 u)).dropLast, c ≠ .B := by rw [C09_raw_classes ds u]; exact hB
+  obtain ⟨a1, a2⟩ := C02.C02_single ds (t16 u) d (t16_WF u h16) hfsi16 hB16
+  obtain ⟨b1, b2⟩ := C02.C02_single ds (t8 u) d (t8_WF u) hfsi8 hB
+  rw [C09_raw_classes ds u] at a1 a2
+  exact ⟨a1, b1, a2, b2⟩
+
+/-! ### levels, relative to the `Expand` lemma of `compute_bidi_info_for_para`
+
+  The hypothesis comes in two strengths: `ParaLevelsExpand ds t` (the `Expand` lemma for all inputs of
+  `compute_bidi_info_for_para` on `t`), and `PbiExpand ds t d`, the single instance of it that
+  `ParagraphBidiInfo::new(t, d)` uses (`PbiExpand_of_ParaLevelsExpand`; decidable, so it can be
+  evaluated on a given text).  The theorems take the weak one. -/
+
+/-- generic form, `ParagraphBidiInfo`: under the `Expand` hypothesis the levels of a well-formed text are
+    the expansion of the levels of the one-unit-per-character text with the same characters, which has
+    exactly one level per character -/
+theorem C09_levels_single_generic (ds : DataSource) (t : Text) (d : Option Nat) (hwf : t.WF)
+    (hfsi : C02.FSIWidth ds t) (hexp : PbiExpand ds t d) :
+    (paragraphBidiInfo ds t d).levels = Expand.expand t (paragraphBidiInfo ds (Expand.unitize t) d).levels ∧
+    (paragraphBidiInfo ds (Expand.unitize t) d).levels.length = t.segs.length :=
+  pbi_levels_expand ds t d hwf hfsi hexp
+
+/-- `ParagraphBidiInfo`: there is ONE vector of per-character levels of which the UTF-16 levels and the
+    UTF-8 levels are the expansions over the respective code units -/
+theorem C09_levels_single_of_expand (ds : DataSource) (u : List Nat) (h16 : ∀ x ∈ u, x < 65536) (d : Option Nat)
+    (hfsi16 : C02.FSIWidth ds (t16 u)) (hfsi8 : C02.FSIWidth ds (t8 u))
+    (he16 : PbiExpand ds (t16 u) d) (he8 : PbiExpand ds (t8 u) d) :
+    ∃ X : List Nat, X.length = (t16 u).segs.length ∧ X.length = (t8 u).segs.length ∧
+      (paragraphBidiInfo ds (t16 u) d).levels = Expand.expand (t16 u) X ∧
+      (paragraphBidiInfo ds (t8 u) d).levels = Expand.expand (t8 u) X := by
+  obtain ⟨a1, a2⟩ := pbi_levels_expand ds (t16 u) d (t16_WF u h16) hfsi16 he16
+  obtain ⟨b1, b2⟩ := pbi_levels_expand ds (t8 u) d (t8_WF u) hfsi8 he8
+  rw [C09_unitize u] at a1 a2
+  exact ⟨_, a2, b2, a1, b1⟩
+
+/-- … hence the same level at the first unit of every character (and, the vectors being expansions, at
+    every unit of it) -/
+theorem C09_levels_single_chars_of_expand (ds : DataSource) (u : List Nat) (h16 : ∀ x ∈ u, x < 65536)
+    (d : Option Nat) (hfsi16 : C02.FSIWidth ds (t16 u)) (hfsi8 : C02.FSIWidth ds (t8 u))
+    (he16 : PbiExpand ds (t16 u) d) (he8 : PbiExpand ds (t8 u) d) :
+    (t16 u).segs.map (fun s => (paragraphBidiInfo ds (t16 u) d).levels.getD s.start 0)
+      = (t8 u).segs.map (fun s => (paragraphBidiInfo ds (t8 u) d).levels.getD s.start 0) := by
+  have h1 := pbi_contract ds (t16 u) d (t16_WF u h16) hfsi16 he16 0
+  have h2 := pbi_contract ds (t8 u) d (t8_WF u) hfsi8 he8 0
+  rw [C09_unitize u, ← h2] at h1
+  exact h1
+
+/-- `BidiInfo`: the levels at the first unit of every character agree, provided the `Expand` hypothesis
+    holds for the sub-text of every paragraph of either text -/
+theorem C09_levels_of_expand (ds : DataSource) (u : List Nat) (h16 : ∀ x ∈ u, x < 65536) (d : Option Nat)
+    (hfsi16 : C02.FSIWidth ds (t16 u)) (hfsi8 : C02.FSIWidth ds (t8 u))
+    (he16 : ∀ p ∈ (bidiInfo ds (t16 u) d).paras, PbiExpand ds ((t16 u).subrange p.start p.stop) d)
+    (he8 : ∀ p ∈ (bidiInfo ds (t8 u) d).paras, PbiExpand ds ((t8 u).subrange p.start p.stop) d) :
+    (t16 u).segs.map (fun s => (bidiInfo ds (t16 u) d).levels.getD s.start 0)
+      = (t8 u).segs.map (fun s => (bidiInfo ds (t8 u) d).levels.getD s.start 0) :=
+  multi_levels_sameChars (sameChars_utf16_utf8 u) (t16_WF u h16) (t8_WF u) hfsi16 hfsi8 he16 he8 0
+
+/-- … and within either text all units of a character carry the level of its first unit (both types), so
+    that agreement at the first units is agreement at every unit -/
+theorem C09_levels_uniform_of_expand (ds : DataSource) (t : Text) (d : Option Nat) (hwf : t.WF)
+    (hfsi : C02.FSIWidth ds t) :
+    ((∀ p ∈ (bidiInfo ds t d).paras, PbiExpand ds (t.subrange p.start p.stop) d) →
+      Expand.UniformOn t (bidiInfo ds t d).levels) ∧
+    (PbiExpand ds t d → Expand.UniformOn t (paragraphBidiInfo ds t d).levels) :=
+  ⟨multi_levels_uniform ds t d hwf hfsi, pbi_levels_uniform ds t d hwf hfsi⟩
+
+/-- the paragraph sub-texts of a well-formed text are well formed and inherit the FSI-width proviso, so
+    the general `Expand` lemma for them gives the instances `C09_levels_of_expand` asks for -/
+theorem PbiExpand_paras (ds : DataSource) (t : Text) (d : Option Nat) (hwf : t.WF) (hfsi : C02.FSIWidth ds t)
+    (hexp : ∀ p ∈ (bidiInfo ds t d).paras, ParaLevelsExpand ds (t.subrange p.start p.stop)) :
+    ∀ p ∈ (bidiInfo ds t d).paras, PbiExpand ds (t.subrange p.start p.stop) d := by
+  intro p hp
+  obtain ⟨f, _, hg, _⟩ := Lemmas.C10.parasFrom_mem (Lemmas.C10.paras_good ds t hwf d).1 p hp
+  exact PbiExpand_of_ParaLevelsExpand ds _ d hg.1 (subrange_FSIWidth ds t _ _ hfsi) (hexp p hp)
+
+/-- `C09_levels_of_expand` and `C09_levels_single_chars_of_expand` with the general hypothesis
+    `ParaLevelsExpand` -/
+theorem C09_levels_of_paraLevelsExpand (ds : DataSource) (u : List Nat) (h16 : ∀ x ∈ u, x < 65536) (d : Option Nat)
+    (hfsi16 : C02.FSIWidth ds (t16 u)) (hfsi8 : C02.FSIWidth ds (t8 u)) :
+    ((∀ p ∈ (bidiInfo ds (t16 u) d).paras, ParaLevelsExpand ds ((t16 u).subrange p.start p.stop)) →
+     (∀ p ∈ (bidiInfo ds (t8 u) d).paras, ParaLevelsExpand ds ((t8 u).subrange p.start p.stop)) →
+      (t16 u).segs.map (fun s => (bidiInfo ds (t16 u) d).levels.getD s.start 0)
+        = (t8 u).segs.map (fun s => (bidiInfo ds (t8 u) d).levels.getD s.start 0)) ∧
+    (ParaLevelsExpand ds (t16 u) → ParaLevelsExpand ds (t8 u) →
+      (t16 u).segs.map (fun s => (paragraphBidiInfo ds (t16 u) d).levels.getD s.start 0)
+        = (t8 u).segs.map (fun s => (paragraphBidiInfo ds (t8 u) d).levels.getD s.start 0)) := by
+  have w16 := t16_WF u h16
+  have w8 := t8_WF u
+  constructor
+  · intro he16 he8
+    exact C09_levels_of_expand ds u h16 d hfsi16 hfsi8 (PbiExpand_paras ds _ d w16 hfsi16 he16)
+      (PbiExpand_paras ds _ d w8 hfsi8 he8)
+  · intro he16 he8
+    exact C09_levels_single_chars_of_expand ds u h16 d hfsi16 hfsi8
+      (PbiExpand_of_ParaLevelsExpand ds _ d w16 hfsi16 he16) (PbiExpand_of_ParaLevelsExpand ds _ d w8 hfsi8 he8)
+
+/-- the same when the `Expand` lemma is available for every well-formed text (the form in which
+    UBidi/Lemmas/Expand*.lean delivers it), with the built-in tables: no hypothesis left but that one -/
+theorem C09_levels_hardcoded_of_expand (hexp : ∀ t : Text, t.WF → ParaLevelsExpand hardcoded t)
+    (u : List Nat) (h16 : ∀ x ∈ u, x < 65536) (d : Option Nat) :
+    (t16 u).segs.map (fun s => (bidiInfo hardcoded (t16 u) d).levels.getD s.start 0)
+      = (t8 u).segs.map (fun s => (bidiInfo hardcoded (t8 u) d).levels.getD s.start 0) ∧
+    (t16 u).segs.map (fun s => (paragraphBidiInfo hardcoded (t16 u) d).levels.getD s.start 0)
+      = (t8 u).segs.map (fun s => (paragraphBidiInfo hardcoded (t8 u) d).levels.getD s.start 0) := by
+  have w16 := t16_WF u h16
+  have w8 := t8_WF u
+  have f16 := hardcoded_FSIWidth _ w16
+  have f8 := hardcoded_FSIWidth _ w8
+  have sub : ∀ (t : Text), t.WF → ∀ p ∈ (bidiInfo hardcoded t d).paras,
+      ParaLevelsExpand hardcoded (t.subrange p.start p.stop) := by
+    intro t hwf p hp
+    obtain ⟨f, _, hg, _⟩ := Lemmas.C10.parasFrom_mem (Lemmas.C10.paras_good hardcoded t hwf d).1 p hp
+    exact hexp _ hg.1
+  obtain ⟨m, s⟩ := C09_levels_of_paraLevelsExpand hardcoded u h16 d f16 f8
+  exact ⟨m (sub _ w16) (sub _ w8), s (hexp _ w16) (hexp _ w8)⟩
+
+/-! ### non-vacuity and tests
+
+  The evaluations on the sample text (`sample`: `A`, a surrogate pair, `א`, a lone high surrogate, space,
+  FSI, `ا`, LF, `1`) are in UBidi/Lemmas/C09Tests1.lean, C09Tests2.lean, C09Tests3.lean (`decide +kernel` on literals:
+  tests, not proofs). -/
+
+theorem bidiInfo_paras (ds : DataSource) (t : Text) (d : Option Nat) :
+    (bidiInfo ds t d).paras = (computeInitialInfo ds t d true).paras := rfl
+
+theorem sample16_eq : sample16 = t16 sample := rfl
+theorem sample8_eq : sample8 = t8 sample := rfl
+
+/-- the hypotheses of the theorems hold for the sample with the built-in tables (the FSI-width proviso by
+    a theorem for every text, not by evaluation) -/
+example : (∀ x ∈ sample, x < 65536) ∧ C02.FSIWidth hardcoded (t16 sample) ∧ C02.FSIWidth hardcoded (t8 sample) :=
+  ⟨by decide, hardcoded_FSIWidth _ (t16_WF sample (by decide)), hardcoded_FSIWidth _ (t8_WF sample)⟩
+
+/-- test: the two texts differ in their code units (10 against 18, different character offsets) -/
+example : (t16 sample).len = 10 ∧ (t8 sample).len = 18 ∧
+    (t16 sample).segs.map (·.start) = [0, 1, 3, 4, 5, 6, 7, 8, 9] ∧
+    (t8 sample).segs.map (·.start) = [0, 1, 5, 7, 10, 11, 14, 16, 17] ∧
+    (t8 sample).segs.map (·.cp) = [0x41, 0x10401, 0x5D0, 0xFFFD, 0x20, 0x2068, 0x627, 0xA, 0x31] :=
+  sample_texts
+
+/-- test: two paragraphs, at different code-unit offsets ([0,9) [9,10) against [0,17) [17,18)), the same
+    character ranges [0,8) [8,9) -/
+example : (computeInitialInfo hardcoded (t16 sample) none true).paras.map
+      (fun p => (charIndexOf (t16 sample) p.start, charIndexOf (t16 sample) p.stop)) = [(0, 8), (8, 9)] ∧
+    (computeInitialInfo hardcoded (t8 sample) none true).paras.map
+      (fun p => (charIndexOf (t8 sample) p.start, charIndexOf (t8 sample) p.stop)) = [(0, 8), (8, 9)] := by
+  rw [← sample16_eq, ← sample8_eq, sample_paras.1, sample_paras.2]
+  exact sample_para_chars
+
+/-- test: the reported classes per character (the FSI has become RLI), the levels (10 against 18 entries) -/
+example : (t16 sample).segs.map (fun s => (computeInitialInfo hardcoded (t16 sample) none true).classes.getD s.start .ON)
+      = [.L, .L, .R, .ON, .WS, .RLI, .AL, .B, .EN] ∧
+    (bidiInfo hardcoded (t16 sample) none).levels = [0, 0, 0, 1, 0, 0, 0, 1, 0, 0] ∧
+    (bidiInfo hardcoded (t8 sample) none).levels = [0, 0, 0, 0, 0, 1, 1, 0, 0, 0, 0, 0, 0, 0, 1, 1, 0, 0] :=
+  ⟨sample_classes, sample_levels.1, sample_levels.2⟩
+
+/-- non-vacuity of the `Expand` hypotheses (by evaluation on the sample): `PbiExpand` holds for both texts
+    (hypotheses of `C09_levels_single_of_expand`) and for the sub-text of every paragraph of either text
+    (hypotheses of `C09_levels_of_expand`).  The general `ParaLevelsExpand` quantifies over all class
+    vectors; it is a theorem of UBidi/Lemmas/Expand*.lean, not something to evaluate. -/
+example : PbiExpand hardcoded (t16 sample) none ∧ PbiExpand hardcoded (t8 sample) none ∧
+    (∀ p ∈ (bidiInfo hardcoded (t16 sample) none).paras, PbiExpand hardcoded ((t16 sample).subrange p.start p.stop) none) ∧
+    (∀ p ∈ (bidiInfo hardcoded (t8 sample) none).paras, PbiExpand hardcoded ((t8 sample).subrange p.start p.stop) none) := by
+  refine ⟨sample_PbiExpand.1, sample_PbiExpand.2, ?_, ?_⟩
+  · rw [bidiInfo_paras, ← sample16_eq, sample_paras.1]; exact sample_PbiExpand_paras.1
+  · rw [bidiInfo_paras, ← sample8_eq, sample_paras.2]; exact sample_PbiExpand_paras.2
 
 end UBidi.Props.C09
